@@ -43,6 +43,7 @@ type harnessCfg struct {
 	Twin     string   `json:"twin"` // vacuity twin entry (must be violated)
 	Subst    map[string]string `json:"subst"` // program function -> harness stub executed in its place
 	NoValidate bool   `json:"no_validate"` // passing paths are not replayed natively (harness runs on stubs only the engine has)
+	Sched      bool   `json:"sched"`       // cooperative scheduler: the schedule of goroutines is a symbolic choice
 	ModelOnly  bool   `json:"model_only"`  // counterexamples cannot be replayed natively (environment model, e.g. a file system with crash points): they are re-executed concretely in the engine and reported from the model
 }
 
@@ -234,7 +235,7 @@ func cmdCheck(args []string) int {
 			params[k] = v
 		}
 		hc := interp.HarnessConfig{Pkg: h.Pkg, Func: h.Func, Budget: h.Budget, Workers: tc.Workers, Solver: h.Solver,
-			TimeoutMs: h.TimeoutMs, InitRun: h.InitRun, InitSkip: h.InitSkip, Params: params, Seed: seed, Subst: h.Subst}
+			TimeoutMs: h.TimeoutMs, InitRun: h.InitRun, InitSkip: h.InitSkip, Params: params, Seed: seed, Subst: h.Subst, Sched: h.Sched}
 		if tc.WallS > 0 {
 			hc.Wall = time.Duration(tc.WallS) * time.Second
 		}
